@@ -981,7 +981,7 @@ func (ch *Chain) CancelWithRcode(rcode int, do bool) {
 		}
 	}
 	m := new(dns.Msg)
-	m.Extra = req.Extra
+	m.Extra = rcodeReplyExtra(req)
 	m.SetRcode(req, rcode)
 	m.RecursionAvailable = true
 	m.RecursionDesired = true
@@ -992,6 +992,35 @@ func (ch *Chain) CancelWithRcode(rcode int, do bool) {
 
 	_ = ch.Writer.WriteMsg(m)
 	ch.count = 0
+}
+
+// rcodeReplyExtra is the additional section of a locally generated rcode
+// reply: the request's OPT pseudo-record and nothing else of what the client
+// sent. Handlers that run ahead of edns (ratelimit's BADCOOKIE, reflex's
+// REFUSED) answer through a writer edns has not wrapped yet and with a
+// request OPT it has not normalised yet, so echoing req.Extra verbatim
+// reflected the client's subnet, padding and unknown options — and any
+// other additional record — straight back. Only the COOKIE option is part
+// of such a reply (RFC 7873 §5.2.3: BADCOOKIE carries the cookie); behind
+// edns the request OPT has no client options left and this is the same OPT
+// the writer completes.
+func rcodeReplyExtra(req *dns.Msg) []dns.RR {
+	opt := req.IsEdns0()
+	if opt == nil {
+		return nil
+	}
+	kept := opt.Option[:0:0]
+	for _, o := range opt.Option {
+		if _, ok := o.(*dns.EDNS0_COOKIE); ok {
+			kept = append(kept, o)
+		}
+	}
+	if len(kept) == len(opt.Option) {
+		return []dns.RR{opt}
+	}
+	echo := *opt
+	echo.Option = kept
+	return []dns.RR{&echo}
 }
 
 // Reset rebinds the chain to a fresh writer + decoded request for pool
